@@ -18,6 +18,7 @@ the codec itself produces (`UnexpectedEof`, `WriteZero`, `InvalidData`). -/
 inductive IoKind
   | unexpectedEof | connectionReset | timedOut | brokenPipe | wouldBlock
   | other | writeZero | invalidData | connectionAborted | notConnected
+  | interrupted | permissionDenied | connectionRefused | invalidInput | notFound | outOfMemory
   deriving DecidableEq, Repr, Inhabited
 
 /-- Result of running a reader on the unread input. -/
